@@ -248,7 +248,11 @@ class PtTebd(BaseAPIClass):
                 epsrel=self._parameters.epsrel,
                 config=self._backend_config)
         self._init_results()
-        self._apply_controls(step=self.step, post=False)
+        # a computation that continues from an exported chain state
+        # (start_step > 0) already includes the pre-measurement controls of
+        # that step
+        if self._start_step == 0:
+            self._apply_controls(step=self.step, post=False)
         self._append_results()
 
     def _init_results(self) -> None:
